@@ -10,3 +10,6 @@ CONSTANTS
   DotNameHandled = TRUE
   RpcPosCheckedFirst = TRUE
   Utf8LabelsHandled = TRUE
+  SetupShapes = {"uri"}
+  AddrShapes = {"uri"}
+  AddrParsedUnchecked = FALSE
